@@ -440,6 +440,53 @@ fn c09(r: &Runner) {
                 }
             });
         }
+        // limbs equal to (or next to) the largest power of the base that fits a word, in every limb position: the value at
+        // which a chunked spigot (divide by base^k, peel k digits off natively) refills
+        if bits > 64 {
+            let cb: Vec<u64> = vec![3, 5, 6, 7, 10, 11, 36, 100, 255, 1000, 10_000, 65_537, 1_000_003, 6_000_000_000, (1 << 32) - 1, (1 << 32) + 1];
+            let nlb = nlimbs(bits).min(4);
+            let mut cases: Vec<(u64, Limbs)> = vec![];
+            for &b in &cb {
+                let mut c = b;
+                while let Some(n) = c.checked_mul(b) {
+                    c = n;
+                }
+                let al = [0u64, 1, c - 1, c, c + 1, c / b, u64::MAX];
+                let mut idx = vec![0usize; nlb];
+                loop {
+                    let mut lim = vec![0u64; nlimbs(bits)];
+                    for (k, &ix) in idx.iter().enumerate() {
+                        lim[k] = al[ix];
+                    }
+                    let last = nlimbs(bits) - 1;
+                    lim[last] &= mask(bits);
+                    cases.push((b, lim));
+                    let mut k = 0;
+                    while k < nlb {
+                        idx[k] += 1;
+                        if idx[k] < al.len() {
+                            break;
+                        }
+                        idx[k] = 0;
+                        k += 1;
+                    }
+                    if k == nlb {
+                        break;
+                    }
+                }
+            }
+            r.universe(&format!("limbs from {{0, 1, c-1, c, c+1, c/b, MAX}} with c = the largest power of the base in a word, {} bases, low {nlb} limbs: digits and round trips", cb.len()), bits, cases.len(), |i, l| {
+                let (b, lim) = &cases[i];
+                let a = vu(lim);
+                let v = big(lim);
+                l.states(1);
+                exec(l, bits, Op::to_base_le, &[a.clone(), V::N(*b as u128)]);
+                exec(l, bits, Op::to_base_be, &[a.clone(), V::N(*b as u128)]);
+                exec(l, bits, Op::to_base_iter, &[a.clone(), V::N(*b as u128), V::n(1)]);
+                let dg = digits_le(&v, *b);
+                exec(l, bits, Op::from_base_le, &[V::N(*b as u128), nl(&dg)]);
+            });
+        }
         // overflow-by-one and invalid digits, per base
         r.universe(&format!("{nb} bases: overflow-by-one and invalid-digit strings"), bits, bases.len(), |i, l| {
             let b = bases[i];
@@ -611,6 +658,20 @@ fn c09(r: &Runner) {
             }
             for s in [v.to_str_radix(10), format!("0x{}", v.to_str_radix(16)), format!("0X{}", v.to_str_radix(16).to_uppercase()), format!("0o{}", v.to_str_radix(8)), format!("0b{}", v.to_str_radix(2)), format!("0B{}", v.to_str_radix(2)), format!("00{}", v.to_str_radix(10))] {
                 exec(l, bits, Op::from_str, &[V::S(s)]);
+            }
+            // a prefix written twice (or followed by another prefix) is ONE prefix followed by digits that begin with 0 and a letter
+            if i % 8 == 0 {
+                const PF: [&str; 6] = ["0x", "0X", "0o", "0O", "0b", "0B"];
+                for p in PF {
+                    for q in PF {
+                        for body in [String::new(), "1".to_string(), "10".to_string(), v.to_str_radix(2), v.to_str_radix(16)] {
+                            exec(l, bits, Op::from_str, &[V::S(format!("{p}{q}{body}"))]);
+                        }
+                    }
+                    exec(l, bits, Op::from_str, &[V::S(format!("{p}{p}{p}1"))]);
+                    exec(l, bits, Op::from_str, &[V::S(format!("{p}_{p}1"))]);
+                    exec(l, bits, Op::from_str, &[V::S(format!("0{p}1"))]);
+                }
             }
         });
     }
